@@ -23,7 +23,8 @@ import vlib
 LEVEL = 'model_checking'
 RULE = ('cases = histories of public memory-management API calls (TLC -simulate behaviours of MemAllocScen, directed '
         'histories, seeded random histories generated against the live state, page sizes 2^12..2^16, 1-4 GPUs of 2-8 '
-        'pages, unified devices, 1-3 processes, several contexts per process) executed on the real driver; every call '
+        'pages, unified devices, 1-3 processes, several contexts per process, virtual cursors pushed across 2^31/2^32/2^33 bytes by one huge '
+        'allocate+free) executed on the real driver; every call '
         'is checked (returned pointer, complete page table, panic). distinct = distinct call sequences incl. observed '
         'results; non-trivial = the history re-allocates after a Free, or moves pages (Remap/Distribute/migration), '
         'or copies to the host after a kernel launch')
@@ -101,6 +102,14 @@ def directed():
         {'a': A, 'ctx': 0, 'dev': 1, 'n': 1}, {'a': 'CopyOut', 'ctx': 0, 'b': 1}, {'a': F, 'ctx': 0, 'b': 3},
         {'a': F, 'ctx': 0, 'b': 4}, {'a': 'CopyOut', 'ctx': 0, 'b': 1}, {'a': A, 'ctx': 0, 'dev': 1, 'n': 1},
         {'a': 'CopyOut', 'ctx': 0, 'b': 5}], gpus=(16,), unified=(), drain=False)
+    # virtual addresses are never reused: one huge buffer allocated and freed on the CPU moves each process's cursor
+    # to exactly 2^32 bytes; the buffers allocated next must not disturb the old ones (two processes, adjacent pids)
+    sc('cursor_crosses_4gib', [
+        {'a': A, 'ctx': 0, 'dev': 1, 'n': 1}, {'a': A, 'ctx': 1, 'dev': 1, 'n': 1},
+        {'a': 'Burn', 'ctx': 0, 'dev': 0, 'n': 65534}, {'a': 'Burn', 'ctx': 1, 'dev': 0, 'n': 65534},
+        {'a': A, 'ctx': 0, 'dev': 1, 'n': 2}, {'a': A, 'ctx': 1, 'dev': 1, 'n': 2},
+        {'a': F, 'ctx': 0, 'b': 1}, {'a': F, 'ctx': 1, 'b': 2}, {'a': 'Probe', 'ctx': 0, 'dev': 1},
+        {'a': F, 'ctx': 0, 'b': 5}, {'a': F, 'ctx': 1, 'b': 6}], gpus=(8, 4), unified=(), ctxs=(1, 2), ps=16)
     return out
 
 
@@ -289,7 +298,7 @@ def nontrivial(recs):
             freed = True
         elif r['e'] == 'Alloc' and freed:
             return True
-        elif r['e'] in ('Remap', 'Dist', 'Mig', 'CopyOut'):
+        elif r['e'] in ('Remap', 'Dist', 'Mig', 'CopyOut', 'Burn'):
             return True
     return False
 
@@ -369,7 +378,7 @@ def run(ctx, selftest=False):
     all_parts += vlib.split_traces(t1)
 
     # 3. code -> spec: seeded random histories generated against the live state
-    nrand = 1500 if thorough else 150
+    nrand = 1505 if thorough else 126    # a multiple of the 7 profiles
     t2 = os.path.join(ctx.scratch, 'rand.ndjson')
     sdump = os.path.join(ctx.scratch, 'rand_scen.json')
     args = ['-random', nrand, '-ops', 60 if thorough else 40, '-seed', ctx.seed, '-dumpscen', sdump, '-out', t2]
@@ -398,7 +407,7 @@ def run(ctx, selftest=False):
         validate(ctx, tb, bscen, drvname='c10buddy', tspec=TSPEC_BUDDY)
         t3 = os.path.join(ctx.scratch, 'buddy_rand.ndjson')
         sdump3 = os.path.join(ctx.scratch, 'buddy_rand_scen.json')
-        p, stats3 = common.run_driver(ctx, drvb, ['-random', 600 if thorough else 60, '-ops', 60 if thorough else 40,
+        p, stats3 = common.run_driver(ctx, drvb, ['-random', 600 if thorough else 48, '-ops', 60 if thorough else 40,
                                                    '-seed', ctx.seed + 1000, '-dumpscen', sdump3, '-out', t3])
         if stats3 is None:
             raise vlib.Infra('buddy driver failed: ' + p.stdout[-2000:])
